@@ -369,3 +369,57 @@ func vC11Conc() {
 }
 
 func vhC11_conc_2() { vC11Conc() }
+
+// C11 (replay connector): ShareReplay(n) / ShareReplayWithConfig(n, {ResetOnRefCountZero}) —
+// "the next subscriber gets a fresh or a replayed execution exactly as the reset options and the
+// connector say".  One upstream subscription; a late subscriber of a running execution first gets
+// the last n values; when the last subscriber leaves, the upstream is released iff the option says
+// so, and the next subscriber then starts a fresh execution (nothing replayed) — otherwise it joins
+// the execution that is still running and gets the replay.
+func vC11ShareReplay() {
+	n := int64(vChoice("n", 3)) // replay size 0..2
+	p := &vProbe{name: "src"}
+	resetZero := false
+	var shared Observable[int64]
+	if vChoice("cfg", 2) == 0 {
+		shared = ShareReplay[int64](int(n))(p)
+	} else {
+		resetZero = vChoice("rZ", 2) == 1
+		shared = ShareReplayWithConfig[int64](int(n), ShareReplayConfig{ResetOnRefCountZero: resetZero})(p)
+	}
+	ra := &vRecorder{name: "a"}
+	sa := shared.SubscribeWithContext(context.Background(), vObs(ra, vFlatInt))
+	vAssert(p.subs == 1 && p.live == 1, "ShareReplay: the first subscriber did not start exactly one upstream execution")
+	vals := []int64{vInt64("v0"), vInt64("v1"), vInt64("v2")}
+	for _, v := range vals {
+		p.emit(vStep{vkNext, v})
+	}
+	rb := &vRecorder{name: "b"}
+	sb := shared.SubscribeWithContext(context.Background(), vObs(rb, vFlatInt))
+	vAssert(p.subs == 1, "ShareReplay: a later subscriber restarted the running execution")
+	vAssert(int64(rb.nexts()) == n, "ShareReplay: a later subscriber of a running execution did not get exactly the last n values")
+	for i := int64(0); i < n && int(i) < len(rb.evs); i++ {
+		vAssert(rb.evs[i].vals[0] == vals[int64(len(vals))-n+i], "ShareReplay: the replayed values are not the last n in order")
+	}
+	sa.Unsubscribe()
+	vAssert(p.live == 1, "ShareReplay: the upstream subscription was released while a subscriber remains")
+	sb.Unsubscribe()
+	if resetZero {
+		vAssert(p.live == 0, "ShareReplay: ResetOnRefCountZero is set but the upstream subscription outlived the last subscriber")
+	} else {
+		vAssert(p.live == 1, "ShareReplay: the upstream subscription was released although ResetOnRefCountZero is not set")
+	}
+	rc := &vRecorder{name: "c"}
+	sc := shared.SubscribeWithContext(context.Background(), vObs(rc, vFlatInt))
+	if resetZero {
+		vAssert(p.subs == 2 && p.live == 1, "ShareReplay: after a reset at reference count zero the next subscriber did not start a fresh execution")
+		vAssert(rc.nexts() == 0, "ShareReplay: a fresh execution replayed values of the previous one")
+	} else {
+		vAssert(p.subs == 1, "ShareReplay: the next subscriber restarted an execution that was still running")
+		vAssert(int64(rc.nexts()) == n, "ShareReplay: the next subscriber did not get the replay of the running execution")
+	}
+	sc.Unsubscribe()
+	vReach("end")
+}
+
+func vhC11_sharereplay_3() { vC11ShareReplay() }
